@@ -419,7 +419,19 @@ func bigCases() []opCase {
 		}
 		return opCase{Hist: &hx.History{ID: 900000 + id}, Prefix: pre, Target: one(target), Kind: kind}
 	}
-	return []opCase{
+	// stores on a destination that exists and holds something, with a result that is not empty:
+	// every statement of the store has something to do
+	sa := []*hx.Op{hx.EAdd("sa", hx.VStr("1"), hx.VStr("2"), hx.VStr("3")), hx.EAdd("sb", hx.VStr("2"), hx.VStr("3"), hx.VStr("4")), hx.EAdd("sold", hx.VStr("old1"), hx.VStr("old2"))}
+	za := []*hx.Op{hx.ZAdd("za", hx.VStr("1"), 1), hx.ZAdd("za", hx.VStr("2"), 2), hx.ZAdd("zb", hx.VStr("2"), 5), hx.ZAdd("zb", hx.VStr("3"), 1), hx.ZAdd("zold", hx.VStr("old1"), 9), hx.ZAdd("zold", hx.VStr("old2"), 8)}
+	var stores []opCase
+	for i, alg := range []string{"diff", "inter", "union"} {
+		stores = append(stores, mk(20+i, "store-EStore-"+alg, hx.EStore(alg, "sold", "sa", "sb"), sa...))
+	}
+	for i, agg := range []string{"sum", "min", "max", "default"} {
+		stores = append(stores, mk(30+i, "store-ZInterStore-"+agg, hx.ZStore(true, agg, "zold", "za", "zb"), za...))
+		stores = append(stores, mk(40+i, "store-ZUnionStore-"+agg, hx.ZStore(false, agg, "zold", "za", "zb"), za...))
+	}
+	return append(stores, []opCase{
 		mk(1, "big-EAdd", hx.EAdd("bigE", vals...)),
 		mk(2, "big-HSetMany", hx.HSetMany("bigH", kvs...)),
 		mk(3, "big-ZAddMany", hx.ZAddMany("bigZ", zvs...)),
@@ -428,7 +440,7 @@ func bigCases() []opCase {
 		mk(6, "big-EDelete", hx.EDelete("bigE", vals...), hx.EAdd("bigE", vals...)),
 		mk(7, "big-HDelete", hx.HDelete("bigH", fields...), hx.HSetMany("bigH", kvs...)),
 		mk(8, "big-ZDelete", hx.ZDelete("bigZ", vals...), hx.ZAddMany("bigZ", zvs...)),
-	}
+	}...)
 }
 
 var randomOutcome = map[string]bool{"EPop": true, "ERandom": true, "KRandom": true}
